@@ -3,6 +3,12 @@
 The prompt contains only the property's text (no information about the verification machinery)."""
 import json, sys, os
 pid = sys.argv[1]; n = int(sys.argv[2]) if len(sys.argv) > 2 else 2
+k0 = int(sys.argv[3]) if len(sys.argv) > 3 else 1   # first index of the output directories
+import glob
+prev = []
+for mp in sorted(glob.glob('/verif/seeded/%s-*/meta.json' % pid)):
+    m = json.load(open(mp)); prev.append("- " + str(m.get("what_changed", ""))[:300].replace("\n", " "))
+prevtxt = ("\nALREADY TRIED by earlier testers (do NOT repeat these or close variants; pick other functions, other clauses of the property, other mechanisms):\n" + "\n".join(prev) + "\n") if prev else ""
 p = [json.loads(l) for l in open('/verif/properties.jsonl') if json.loads(l)['id'] == pid][0]
 txt = f"""You are testing how well a semantic property of the C++ library ospray/rkcommon is protected against regressions.
 You have your own scratch git worktree of the library at /tmp/seed/{pid} (work ONLY there; never touch /repo; do NOT read or
@@ -14,6 +20,7 @@ It must hold for: {p['quantifier']['text']}
 Why the existing unit tests cannot settle it: {p['why_tests_cant']}
 Code it is anchored in: {', '.join(p['anchors']['files'])}
 
+{prevtxt}
 YOUR TASK: produce {n} DIFFERENT, independent source changes to the library (each one separately, starting from the clean
 worktree), each of which
   (a) BREAKS the property above (some clause of it) — a realistic slip a developer could make during a refactoring or
@@ -33,7 +40,7 @@ worktree's headers/sources, e.g.
  — rkcommon/version.h is generated into the _b build dir) that exits 0 on the UNCHANGED worktree and exits non-zero (or is
 killed by a sanitizer / times out, say which) WITH the change. Verify both directions yourself.
 
-DELIVER, for change k = 1..{n}, a directory /tmp/seedout/{pid}-k/ containing:
+DELIVER, for change k = {k0}..{k0+n-1}, a directory /tmp/seedout/{pid}-k/ containing:
   patch.diff   (git -C /tmp/seed/{pid} diff  — relative to the clean worktree, applies with `git apply`)
   demo.cpp     and  run.sh (the exact compile+run command line, parameterised by the tree path as $1, exit status = demo's)
   meta.json    {{"property": "{pid}", "clause_broken": "...", "what_changed": "...", "needs_to_manifest": "...",
